@@ -942,6 +942,187 @@ func TestC07(t *testing.T) {
 		}
 	}
 	ef.done(thorough())
+	// three-way mutations: every pair, and every triple that involves a change of line order, of ~130 single edits of
+	// a small synthetic record (delete / duplicate a line, one blank less or more at its start or in its widest gap,
+	// swap neighbours, move the REFERENCE block in front of SOURCE and the like). Defects that need three things at
+	// once (a field out of order + an uneven indent + a missing subfield) are out of reach of one random mutation.
+	etw := enumPart(t, c07Prop, st, "three-way-mutations")
+	{
+		base := strings.SplitAfter("LOCUS       TINY                      20 bp    DNA     linear   SYN 01-JAN-2020\nDEFINITION  tiny record.\nACCESSION   TINY\nVERSION     TINY.1\nKEYWORDS    .\n"+
+			"SOURCE      synthetic construct\n  ORGANISM  synthetic construct\n            other sequences.\nREFERENCE   1  (bases 1 to 20)\n  AUTHORS   Doe,J.\n  TITLE     direct submission\n  JOURNAL   Unpublished\n"+
+			"COMMENT     a comment.\nFEATURES             Location/Qualifiers\n     gene            1..20\n                     /gene=\"g\"\nORIGIN      \n        1 acgtacgtac gtacgtacgt\n//\n", "\n")
+		base = base[:len(base)-1]
+		type edit struct {
+			kind string
+			i, j int
+		}
+		var singles []edit
+		for i := range base {
+			for _, k := range []string{"del", "dup", "dedent-start", "dedent-gap", "indent-start", "indent-gap"} {
+				singles = append(singles, edit{k, i, 0})
+			}
+			if i+1 < len(base) {
+				singles = append(singles, edit{"swap", i, i + 1})
+			}
+		}
+		nOrder := 0
+		for _, mv := range [][2]int{{8, 5}, {5, 12}, {12, 1}, {13, 8}} { // move the block starting at line i in front of line j
+			singles = append(singles, edit{"move", mv[0], mv[1]})
+		}
+		isOrder := func(e edit) bool { return e.kind == "swap" || e.kind == "move" }
+		for _, e := range singles {
+			if isOrder(e) {
+				nOrder++
+			}
+		}
+		blockEnd := func(lines []string, i int) int { // a field with its indented continuation / subfield lines
+			k := i + 1
+			for k < len(lines) && strings.HasPrefix(lines[k], " ") {
+				k++
+			}
+			return k
+		}
+		gap := func(ln string) (int, int) { // the widest run of blanks inside the line
+			bs, bl, cs := -1, 0, -1
+			for k := 0; k <= len(ln); k++ {
+				if k < len(ln) && ln[k] == ' ' {
+					if cs < 0 {
+						cs = k
+					}
+					continue
+				}
+				if cs >= 0 && k-cs > bl {
+					bs, bl = cs, k-cs
+				}
+				cs = -1
+			}
+			return bs, bl
+		}
+		apply := func(edits []edit) string {
+			type ln struct {
+				id   int
+				text string
+			}
+			lines := make([]ln, len(base))
+			for i, t := range base {
+				lines[i] = ln{i, t}
+			}
+			find := func(id int) int {
+				for k, l := range lines {
+					if l.id == id {
+						return k
+					}
+				}
+				return -1
+			}
+			for _, e := range edits { // order changes first, by line identity
+				switch e.kind {
+				case "swap":
+					a, b := find(e.i), find(e.j)
+					if a >= 0 && b >= 0 {
+						lines[a], lines[b] = lines[b], lines[a]
+					}
+				case "move":
+					a, b := find(e.i), find(e.j)
+					if a < 0 || b < 0 {
+						continue
+					}
+					texts := make([]string, len(lines))
+					for k, l := range lines {
+						texts[k] = l.text
+					}
+					end := blockEnd(texts, a)
+					if b >= a && b < end {
+						continue
+					}
+					blk := append([]ln{}, lines[a:end]...)
+					rest := append(append([]ln{}, lines[:a]...), lines[end:]...)
+					at := 0
+					for k, l := range rest {
+						if l.id == e.j {
+							at = k
+						}
+					}
+					lines = append(append(append([]ln{}, rest[:at]...), blk...), rest[at:]...)
+				}
+			}
+			for _, e := range edits {
+				k := find(e.i)
+				if k < 0 {
+					continue
+				}
+				t := lines[k].text
+				switch e.kind {
+				case "dedent-start":
+					if strings.HasPrefix(t, " ") {
+						lines[k].text = t[1:]
+					}
+				case "indent-start":
+					lines[k].text = " " + t
+				case "dedent-gap":
+					if s0, n := gap(strings.TrimRight(t, "\n")); n >= 2 && s0 > 0 {
+						lines[k].text = t[:s0] + t[s0+1:]
+					}
+				case "indent-gap":
+					if s0, n := gap(strings.TrimRight(t, "\n")); n >= 1 && s0 > 0 {
+						lines[k].text = t[:s0] + " " + t[s0:]
+					}
+				}
+			}
+			var out strings.Builder
+			for _, l := range lines {
+				del, dup := false, false
+				for _, e := range edits {
+					if e.i == l.id && e.kind == "del" {
+						del = true
+					}
+					if e.i == l.id && e.kind == "dup" {
+						dup = true
+					}
+				}
+				if del {
+					continue
+				}
+				out.WriteString(l.text)
+				if dup {
+					out.WriteString(l.text)
+				}
+			}
+			return out.String()
+		}
+		seen := map[string]bool{}
+		try := func(edits ...edit) bool {
+			text := apply(edits)
+			if seen[text] {
+				return true
+			}
+			seen[text] = true
+			return etw.try(c07Case{Target: "scan", Input: []byte(text), How: "three-way", Trunc: -1})
+		}
+		for a := 0; a < len(singles); a++ {
+			if !try(singles[a]) {
+				return
+			}
+			for b := a + 1; b < len(singles); b++ {
+				if !try(singles[a], singles[b]) {
+					return
+				}
+				for c3 := b + 1; c3 < len(singles); c3++ {
+					if !(isOrder(singles[a]) || isOrder(singles[b]) || isOrder(singles[c3])) {
+						continue
+					}
+					if !thorough() && (c3+b)%3 != 0 && !(singles[c3].kind == "del" || singles[b].kind == "del" || singles[a].kind == "del") {
+						continue
+					}
+					if !try(singles[a], singles[b], singles[c3]) {
+						return
+					}
+				}
+			}
+		}
+		st.note("three-way-mutations: %d single edits (%d of them change the line order), %d distinct texts", len(singles), nOrder, len(seen))
+	}
+	etw.done(false)
 	// hostile lines: every line of the list put in front of every line of the small GenBank files (what the rapid
 	// mutator does at one random place), LF and CRLF
 	ehl := enumPart(t, c07Prop, st, "hostile-lines")
